@@ -361,6 +361,170 @@ def gen_nest(tier, seed):
                 yield p, vals
 
 
+VAL_FILTERS = ["h", "x", "u", "trim", "entity", "str", "unicode", "decode.utf8", "f1"]
+VAL_SEQ = [True, 1, 1.0, False, 0, 0.0, "@helper:DEC1", "@helper:DEC10", "@helper:EQA", "@helper:EQB", "@helper:MUT=m-1<&", "@helper:MUT=m-2<&", [1, "é<"], "1"]
+
+
+def gen_vals(tier, seed, reverse=False):
+    """every filter in a place where it receives the value itself (after n, or first in default_filters) x a sequence
+    of values that are equal / hash alike but read differently, a value whose text changes, an unhashable value -
+    rendered one after the other by the same template in the same process, in both orders"""
+    seq = list(reversed(VAL_SEQ)) if reverse else list(VAL_SEQ)
+    for f in VAL_FILTERS:
+        for L, D in ((["n", f], None), (["n", f, "f1"], None), ([], [f]), (["f2"], [f])):
+            for pos in ("body", "def"):
+                p = pipe_prog(L, D, None, pos, bind="imports")
+                p["fam"] = "vals"
+                yield p, seq
+
+
+FPART = [
+    # (class, text after the expression, the filters it denotes)
+    ("comment after the last filter", " | h # c\n", ["h"]),
+    ("comment after the last filter", " | f1, h # c }\n", ["f1", "h"]),
+    ("comment between filters", " | h, # c\n trim", ["h", "trim"]),
+    ("comment between filters", " | h, # c\ntrim", ["h", "trim"]),
+    ("comment before the first filter", " | # c\n h", ["h"]),
+    ("trailing comma", " | h,", ["h"]),
+    ("trailing comma", " | h, ", ["h"]),
+    ("trailing comma", " | f1, h ,", ["f1", "h"]),
+    ("list on several lines", " | h,\n trim", ["h", "trim"]),
+    ("list on several lines", " | h,\ntrim", ["h", "trim"]),
+    ("list on several lines", " | f1\n , h", ["f1", "h"]),
+    ("list on several lines", " | f1,\n   g('}'),\n   h", ["f1", "g('}')", "h"]),
+    ("line break around the list", " |\n h", ["h"]),
+    ("line break around the list", " | h\n", ["h"]),
+    ("line break around the list", " |\n f1, h\n", ["f1", "h"]),
+]
+FATTR = [
+    ("blank before the list", " trim", ["trim"]),
+    ("blank before the list", " f1, trim", ["f1", "trim"]),
+    ("blank after the list", "trim ", ["trim"]),
+    ("blank around the list", " f1, trim ", ["f1", "trim"]),
+    ("trailing comma", "trim,", ["trim"]),
+    ("trailing comma", "f1, trim, ", ["f1", "trim"]),
+    ("list on several lines", "f1,\n trim", ["f1", "trim"]),
+    ("line break around the list", "\n f1, trim\n", ["f1", "trim"]),
+    ("comment after the last filter", "trim # c\n", ["trim"]),
+]
+REJECT = ["SyntaxException", "CompileException"]
+
+
+def gen_fpart(tier, seed):
+    """spellings of the filter list itself (in ${ | } and in filter= / expression_filter attributes) that the
+    documentation never shows: the documented composition or a loud compile-time refusal, never anything else;
+    and a page filter named by a context callable: the composition or a NameError"""
+    for cls, suffix, filters in FPART:
+        for D in (None, ["f3"]):
+            for pos in ("body", "def"):
+                p = pipe_prog(filters, D, None, pos)
+                for nd in c02_sig.walk(p["body"]):
+                    if nd[0] == "expr" and nd[1] == "v":
+                        nd[3] = "v" + suffix
+                p.update(fam="fpart", may_reject=REJECT, fclass=cls)
+                yield p, (0, 1)
+    for cls, raw, filters in FATTR:
+        for cons, ce in TAG_CONSTRUCTS:
+            if ce:
+                continue
+            p = tagf_prog(filters, cons, ce, [], None, None)
+            p.update(fam="fpart", may_reject=REJECT, fclass=cls + " (attribute)", attr_raw=raw)
+            yield p, (0, 1)
+        p = pipe_prog([], None, [f if f != "f1" else "f4" for f in filters], "body")
+        p.update(fam="fpart", may_reject=REJECT, fclass=cls + " (attribute)", attr_raw=raw.replace("f1", "f4"), attr_raw_page=True)
+        yield p, (0, 1)
+    for P in (["f1"], ["ns.f1"], ["n", "f1"], ["f1", "h"]):
+        for pos in POSITIONS:
+            for L in ([], ["f2"], ["n"]):
+                p = pipe_prog(L, None, P, pos)
+                p.update(fam="fpart", may_reject=["NameError"], fclass="page filter named by a context callable")
+                yield p, (0, 2)
+
+
+def shared_cases(tier, seed):
+    """histories on one long-lived TemplateLookup / on one list object given to several Template() calls:
+    every ordered pair of templates from a small set, each compared with the same template on its own; the
+    caller's lists must be unchanged afterwards"""
+    _, values = alphabet(seed)
+    progs = []
+    for P in (None, ["f4"], ["n"], ["n", "f4"], ["f4", "n"]):
+        progs.append(pipe_prog([], None, P, "body"))
+        progs.append(pipe_prog(["f1"], None, P, "def"))
+        progs.append(tagf_prog(["f1"], "def-bf", [], None, None, P))
+    Ds = [["h"], ["f3", "h"]] if tier == "quick" else [["h"], ["f3", "h"], ["decode.utf8"], ["str", "f3"]]
+    for D in Ds:
+        for mode in ("list", "lookup"):
+            for a in progs:
+                for b in progs:
+                    yield {"kind": "shared", "mode": mode, "D": D, "B": ["f5"], "progs": [a, b], "v": values[0]}
+
+
+def check_shared(case, st):
+    from mako.lookup import TemplateLookup
+    from mako.template import Template
+
+    D, B = case["D"], case["B"]
+    imports = ["from mc.c02_env import " + c02_ref.MOD_NAMES]
+    dl, bl, il = list(D), list(B), list(imports)
+    lk = TemplateLookup(default_filters=dl, buffer_filters=bl, imports=il) if case["mode"] == "lookup" else None
+    tmpls = []
+    bad = []
+    for i, p0 in enumerate(case["progs"]):
+        prog = dict(p0, D=list(D), B=list(B), fam="shared")
+        text, _ = c02_ref.print_program(prog)
+        ctxj = c02_ref.context_for(prog, case["v"])
+        ctx = c02_env.resolve(ctxj)
+        exp = c02_ref.reference(prog, ctx)
+        try:
+            if lk is not None:
+                lk.put_string("/t%d" % i, text)
+                t = lk.get_template("/t%d" % i)
+            else:
+                t = Template(text, default_filters=dl, buffer_filters=bl, imports=il)
+        except BaseException as e:  # noqa
+            t = ("exc", type(e).__name__, str(e)[:200], "compile")
+        tmpls.append((prog, t, ctx, exp))
+        # render every template built so far: an earlier one must not change either
+        for j, (pj, tj, cj, ej) in enumerate(tmpls):
+            if isinstance(tj, tuple):
+                obs = tj
+            else:
+                try:
+                    obs = ("ok", tj.render_unicode(**cj))
+                except BaseException as e:  # noqa
+                    obs = ("exc", type(e).__name__, str(e)[:200], "render")
+            st.evaluations += 1
+            st.transitions += ej[2]
+            st.oracles["shared_render_equals_reference"] += 1
+            st.outcomes[("shared", ej[0], obs[0] if obs[0] == "ok" else "exc:" + obs[1])] += 1
+            ok = True
+            if ej[0] == "ok":
+                ok = (obs[0] == "ok" and (obs[1] == ej[1] or obs[1] in ej[3])) or (obs[0] != "ok" and c02_ref.RAISES in ej[3])
+            elif ej[0] == "error":
+                ok = obs[0] != "ok"
+            if not ok:
+                first = tmpls[0][0]
+                where = "alone" if (i == 0 and j == 0) else ("template %d after compiling %d" % (j + 1, i + 1))
+                how = "diff" if obs[0] == "ok" else "exc:" + obs[1]
+                sig = "shared:%s:%s" % (how, "+".join(sorted(c02_sig.features(pj))))
+                if not (i == 0 and j == 0):
+                    sig += ":after a template whose page filter is %s" % c02_sig.pclass(first if j > 0 or i > 0 else pj)
+                bad.append((sig, "render: %s (%s)" % ("output differs from the same template on its own", where), [ej[1]], list(obs)))
+        st.oracles["inputs_not_mutated"] += 1
+        for name, cur, orig in (("default_filters", dl, D), ("buffer_filters", bl, B), ("imports", il, imports)):
+            if cur != list(orig):
+                bad.append(("shared:the caller's %s list is changed by compiling a template" % name, "inputs: a list given to Template/TemplateLookup is modified", list(orig), list(cur)))
+    st.states += 1
+    st.traces += 1
+    st.nontrivial += 1
+    seen = set()
+    for sig, oracle, e, o in bad:
+        if sig in seen:
+            continue
+        seen.add(sig)
+        report(st, sig, case, oracle, e, o)
+
+
 def spell_prog(src, suffix, filters, pre="[", post="]"):
     body = []
     if pre:
@@ -445,6 +609,40 @@ def spell_nontrivial(src):
 signature = c02_sig.signature
 
 
+_HIST = None  # the recent cases of this worker job (None while replaying)
+_BUDGET = [0]
+
+
+def _describe_prelude(h, case):
+    try:
+        if h.get("kind") or case.get("kind"):
+            return "an earlier " + str(h.get("kind") or "case")
+        same = c02_ref.print_program(h["prog"]) == c02_ref.print_program(case["prog"])
+    except Exception:  # noqa
+        same = False
+    return "the same template rendered with another value" if same else "another template in the same process"
+
+
+def report(st, sig, case, oracle, expected, observed):
+    """st.violation, after working out whether the failure needs an earlier case of this process (order dependence)"""
+    if _HIST is None:
+        st.violation(sig, case, oracle, expected=expected, observed=observed)
+        return
+    if st.sigcount[sig] >= 2 or _BUDGET[0] <= 0:
+        st.sigcount[sig] += 1
+        st.extra["violations_not_minimised"] = st.extra.get("violations_not_minimised", 0) + 1
+        return
+    _BUDGET[0] -= 1
+    prelude = core.find_prelude("mc.props.c02", case, list(_HIST), max_tries=24)
+    if prelude is None:
+        st.extra.setdefault("harness_errors", []).append("failure seen in the worker reproduces neither alone nor after any one of the 24 preceding cases: sig=%s case=%s" % (sig, json.dumps(core.jsonable(case))[:600]))
+        return
+    if prelude:
+        sig += ":only after " + _describe_prelude(prelude[0], case)
+        case = dict(case, prelude=prelude)
+    st.violation(sig, case, oracle, expected=expected, observed=observed)
+
+
 def check_prog(prog, vnames, st, tags=None, fam=None, lex=False, nt=None):
     from mako.template import Template
 
@@ -490,12 +688,18 @@ def check_prog(prog, vnames, st, tags=None, fam=None, lex=False, nt=None):
         st.transitions += exp[2]
         if nt:
             st.nontrivial += 1
-        st.outcomes[(fam if fam in ("pipe", "tagf", "bind", "decoy", "nest", "multi") else "spell", exp[0], obs[0] if obs[0] == "ok" else "exc:" + obs[1])] += 1
+        st.outcomes[(fam if fam in ("pipe", "tagf", "bind", "decoy", "nest", "multi", "vals", "fpart") else "spell", exp[0], obs[0] if obs[0] == "ok" else "exc:" + obs[1])] += 1
         bad = None
+        case = {"prog": prog, "ctx": ctxj, "tags": tags or []}
         if exp[0] == "ok":
             st.oracles["render_equals_reference"] += 1
             if obs[0] != "ok":
-                bad = "documented pipeline has a value but the template raises"
+                if c02_ref.RAISES in exp[3]:
+                    pass  # one allowed reading of a text filter given a non-string
+                elif obs[1] in (prog.get("may_reject") or ()):
+                    st.outcomes[(fam, "rejected", obs[1])] += 1  # a spelling the documentation never shows, refused loudly
+                else:
+                    bad = "documented pipeline has a value but the template raises"
             elif obs[1] != exp[1] and obs[1] not in exp[3]:
                 bad = "output differs from the documented composition"
         elif exp[0] == "error":
@@ -503,8 +707,9 @@ def check_prog(prog, vnames, st, tags=None, fam=None, lex=False, nt=None):
             if obs[0] == "ok":
                 bad = "documented composition raises %s but the template renders" % exp[1]
         if bad:
-            case = {"prog": prog, "ctx": ctxj, "tags": tags or []}
-            st.violation(signature(prog, exp, obs, tags, text), case, "render: " + bad, expected=list(exp[:2]), observed=list(obs))
+            report(st, signature(prog, exp, obs, tags, text), case, "render: " + bad, [exp[1]] + [("<raises>" if a == c02_ref.RAISES else a) for a in (exp[3] if exp[0] == "ok" else [])], list(obs))
+        if _HIST is not None:
+            _HIST.append(case)
         if st.evaluations % 4999 == 1:
             st.sample({"template": text, "template_kwargs": kw, "ctx": ctxj, "expected": list(exp[:2]), "observed": list(obs[:2])})
     if lex:
@@ -559,13 +764,13 @@ def check_lex(prog, text, st, tags):
         sig = signature(prog, ("ok",), ("exc", got[1]) if nodes is None else ("ok",), tags, text)
         if not sig.startswith(("spell:cut", "spell:scanner", "spell:ran")):
             sig = "node:%s:%s" % (how, (tags or ["?"])[0])
-        st.violation(sig, {"prog": prog, "ctx": None, "tags": tags or [], "lex": True}, "lexer: Expression node does not hold the expression text / filter part", expected=[list(w) for w in w2], observed=[list(g) for g in got] if nodes is not None else list(got))
+        report(st, sig, {"prog": prog, "ctx": None, "tags": tags or [], "lex": True}, "lexer: Expression node does not hold the expression text / filter part", [list(w) for w in w2], [list(g) for g in got] if nodes is not None else list(got))
 
 
 # --------------------------------------------------------------------------
 # jobs
 
-N_PIPE, N_TAGF, N_SPELL, N_BIND = 41, 17, 23, 7  # primes: shards cut across every dimension
+N_PIPE, N_TAGF, N_SPELL, N_BIND, N_SHARED = 41, 17, 23, 7, 4  # primes: shards cut across every dimension
 
 
 def plan(tier, seed):
@@ -579,6 +784,11 @@ def plan(tier, seed):
     for i in range(N_BIND):
         jobs.append({"kind": "bind", "tier": tier, "seed": seed, "shard": i, "nshards": N_BIND})
     jobs.append({"kind": "nest", "tier": tier, "seed": seed, "shard": 0, "nshards": 1})
+    jobs.append({"kind": "vals", "tier": tier, "seed": seed, "shard": 0, "nshards": 1, "reverse": False})
+    jobs.append({"kind": "vals", "tier": tier, "seed": seed, "shard": 0, "nshards": 1, "reverse": True})
+    jobs.append({"kind": "fpart", "tier": tier, "seed": seed, "shard": 0, "nshards": 1})
+    for i in range(N_SHARED):
+        jobs.append({"kind": "shared", "tier": tier, "seed": seed, "shard": i, "nshards": N_SHARED})
     return jobs
 
 
@@ -594,10 +804,30 @@ def run_job(job):
 
 
 def _run_job(job, st):
+    global _HIST
+    import collections
+
+    _HIST = collections.deque(maxlen=50)
+    _BUDGET[0] = 6
+    try:
+        return _run_job2(job, st)
+    finally:
+        _HIST = None
+
+
+def _run_job2(job, st):
     tier, seed, sh, ns = job["tier"], job["seed"], job["shard"], job["nshards"]
     _, values = alphabet(seed)
     seen = set()
     nprog = 0
+    if job["kind"] == "shared":
+        for i, case in enumerate(shared_cases(tier, seed)):
+            if i % ns != sh:
+                continue
+            check_shared(case, st)
+            nprog += 1
+        st.extra["histories_shared"] = nprog
+        return st
     if job["kind"] == "spell":
         for i, (prog, vi, fam, tags) in enumerate(gen_spell(tier, seed)):
             if i % ns != sh:
@@ -608,15 +838,16 @@ def _run_job(job, st):
             st.extra["spell_" + fam] = st.extra.get("spell_" + fam, 0) + 1
             seen.add(zlib.crc32(text.encode("utf-8")))
     else:
-        gen = {"pipe": gen_pipe, "tagf": gen_tagf, "bind": gen_bind, "nest": gen_nest}[job["kind"]]
-        for i, (prog, vi) in enumerate(gen(tier, seed)):
+        gen = {"pipe": gen_pipe, "tagf": gen_tagf, "bind": gen_bind, "nest": gen_nest, "vals": gen_vals, "fpart": gen_fpart}[job["kind"]]
+        it = gen(tier, seed, job["reverse"]) if job["kind"] == "vals" else gen(tier, seed)
+        for i, (prog, vi) in enumerate(it):
             if i % ns != sh:
                 continue
             text, kw = check_prog(prog, [values[j] if isinstance(j, int) else j for j in vi], st)
             nprog += 1
-            rest = [kw, prog.get("vals"), c02_ref.print_program(prog["sub"]) if prog.get("sub") else None]
+            rest = [kw, prog.get("vals"), c02_ref.print_program(prog["sub"]) if prog.get("sub") else None, job.get("reverse")]
             seen.add((zlib.crc32(text.encode("utf-8")), zlib.crc32(json.dumps(rest, sort_keys=True).encode())))
-    st.extra["programs_" + job["kind"]] = nprog
+    st.extra["programs_" + job["kind"]] = st.extra.get("programs_" + job["kind"], 0) + nprog
     st.extra["duplicate_programs"] = st.extra.get("duplicate_programs", 0) + (nprog - len(seen))
     return st
 
@@ -626,6 +857,11 @@ def _run_job(job, st):
 
 def replay(case):
     st = Stats()
+    if case.get("kind") == "shared":
+        check_shared(case, st)
+        if st.violations:
+            return False, "reproduced: %r" % (st.violations[0],)
+        return True, "holds"
     prog = case["prog"]
     if case.get("lex"):
         text, _ = c02_ref.print_program(prog)
